@@ -90,14 +90,20 @@ def configs(tier):
     L = [dict(strategy='dimwise', D=2, lmin=1, lmax=2, func='cornerpeak'),
          dict(strategy='dimwise', D=2, lmin=1, lmax=2, func='vector', boundary=False, rebalancing=False),
          dict(strategy='extendsplit', D=2, lmin=1, lmax=2, func='cornerpeak'),
-         dict(strategy='extendsplit', D=2, lmin=1, lmax=3, func='vector')]
+         dict(strategy='extendsplit', D=2, lmin=1, lmax=3, func='vector', boundary=False),
+         dict(strategy='extendsplit', D=2, lmin=1, lmax=2, func='cornerpeak', grid='lagrange2', auto=True),
+         dict(strategy='extendsplit', D=2, lmin=1, lmax=2, func='product', grid='clenshaw', auto=True),
+         dict(strategy='extendsplit', D=2, lmin=1, lmax=2, func='cornerpeak', grid='simpson')]
     if tier == 'thorough':
         L += [dict(strategy='dimwise', D=3, lmin=1, lmax=2, func='product'),
               dict(strategy='dimwise', D=2, lmin=1, lmax=3, func='product', version=8),
               dict(strategy='dimwise', D=2, lmin=2, lmax=3, func='cornerpeak', version=7, rebalancing=False),
               dict(strategy='extendsplit', D=3, lmin=1, lmax=2, func='cornerpeak'),
               dict(strategy='extendsplit', D=2, lmin=1, lmax=2, func='product', nrbe=2),
-              dict(strategy='extendsplit', D=2, lmin=2, lmax=3, func='vector')]
+              dict(strategy='extendsplit', D=2, lmin=2, lmax=3, func='vector'),
+              dict(strategy='extendsplit', D=2, lmin=1, lmax=2, func='cornerpeak', grid='gauss', auto=True),
+              dict(strategy='extendsplit', D=3, lmin=1, lmax=2, func='cornerpeak', grid='lagrange2', auto=True),
+              dict(strategy='extendsplit', D=2, lmin=1, lmax=3, func='vector', grid='clenshaw')]
     for c in L:
         c.setdefault('norm', np.inf)
     return L
@@ -140,6 +146,25 @@ def run(tier, seed):
             rep.sample({'config': name, 'stop_after_evaluations': k + 1, 'reported': r['_result'], 'independent_recombination_agrees': r['final_comb'],
                         'reevaluated': r.get('_reeval'), 'points_weights': r.get('_pw')}, limit=4)
             mx = [e['np'] for e in rec.events if e['k'] == 'E'][-1]
+            if c['strategy'] == 'dimwise' and k >= 1:
+                # the same instance is continued to a later stop and queried again (stale caches would show here)
+                try:
+                    n1 = len(rec.events)
+                    with impl.quiet(), impl.watchdog(240):
+                        ret2 = S['combi'].continue_adaptive_refinement(tol=-1.0, max_evaluations=mx, min_evaluations=1)
+                    ev2 = DP.ret_event(S, rec, ret2, c, lims, with_c05=False)
+                    ind = DP.independent_combination(S)
+                    pw = DP.points_and_weights_value(S)
+                    ev2['final_comb'] = DP.close(ret2[3], ind)
+                    ev2['pw_same'] = DP.close(ret2[3], pw, 1e-10)
+                    ev2['_pw'] = None if pw is None else [float(x) for x in pw]
+                    events2 = events + [{'k': 'Resume', 'minE': 1, 'maxE': int(mx)}] + rec.events[n1:] + [ev2]
+                    tr2 = DP.to_trace(c, lims, events2, name + ' stop after %d evaluations, then continued' % (k + 1))
+                    tr2['_sig'] = tr['_sig']
+                    traces.append(tr2)
+                    rep.count(1, key=(name, k, 'continued'))
+                except impl.Timeout:
+                    rep.exclude('%s continued: timeout' % name)
     from harness.drivers.c13_driver import conclude
     return conclude(rep, traces, ('C05_',))
 
